@@ -113,7 +113,7 @@ chk("C16", "envx+refbmc",
     "DESIGN.md section 4 C16")
 chk("C18", "histx+udp",
     "exhaustive enumeration of operation histories (depth <= D + structured 60-step + dial histories over UDP) compared with an accounting reference model",
-    "All histories of <= 3 (thorough 4) operations over 18 kinds (session opens failing at each step, commands succeeding / failing / retried / expiring / unserialisable, closes succeeding and failing), a 60-step background with each kind inserted at each position, and DialV2 / session / transport-close histories over UDP loopback; every bmc_* counter and gauge delta from prometheus.DefaultGatherer must equal the accounting of what the harness observed (calls, errors returned, transmissions beyond the first, valid responses per code, opens minus closes).",
+    "All histories of <= 3 operations (thorough: <= 4, and all of 5 that begin with a session open of any kind) over 22 kinds (session opens failing at each step, commands succeeding / failing / retried / expiring / unserialisable, closes succeeding and failing), a 60-step background with each kind inserted at each position, and DialV2 / session / transport-close histories over UDP loopback; every bmc_* counter and gauge delta from prometheus.DefaultGatherer must equal the accounting of what the harness observed (calls, errors returned, transmissions beyond the first, valid responses per code, opens minus closes).",
     "One worker process per shard (the registry is process-global). Histograms are out of scope.",
     "DESIGN.md section 4 C18, appendix A.5")
 ENGINES += [
